@@ -48,6 +48,24 @@ TRUSTED_BASE = [
 ]
 
 
+def _emsarray_frame(exc: BaseException):
+    """`file:line function` of the innermost frame of the traceback that lies in the emsarray source under test,
+    or None when the exception did not pass through emsarray at all (then it is the harness's own trouble)."""
+    try:
+        import emsarray
+        root = str(pathlib.Path(emsarray.__file__).resolve().parent)
+    except Exception:
+        return None
+    hit = None
+    tb = exc.__traceback__
+    while tb is not None:
+        fn = tb.tb_frame.f_code.co_filename
+        if fn.startswith(root):
+            hit = f'{fn[len(root) + 1:]}:{tb.tb_lineno} {tb.tb_frame.f_code.co_name}'
+        tb = tb.tb_next
+    return hit
+
+
 class Ctx:
     def __init__(self, prop: str, tier: str, seed: int, searching: bool = False, mult: int = 1):
         self.prop = prop
@@ -119,6 +137,14 @@ class Ctx:
             tb = traceback.format_exc(limit=4)
             self.evaluations += 1
             self.disagree('harness-case', f'EXC {type(e).__name__}: {e}', 'case handled without exception', {**desc, 'traceback': tb})
+            # An exception that was raised *inside emsarray* (or in a library it called) while the harness was
+            # exercising an input of the property's quantifier - the check modules catch and canonicalise every
+            # error they expect, so on the unchanged tree nothing arrives here - is a concrete input on which the
+            # property's positive statement fails: report it as such, not only as a broken correspondence.
+            where = _emsarray_frame(e)
+            if where:
+                self.oracle_fail('implementation-raised', {**desc, 'raised_in': where},
+                                 f'{type(e).__name__}: {str(e)[:300]} (raised in {where})')
 
     # -- direct property oracle --------------------------------------------
     def oracle_fail(self, signature: str, desc: dict, message: str) -> None:
